@@ -1,4 +1,5 @@
 import GoitProofs.Props.C07End
+import GoitProofs.Props.C10Refine
 set_option linter.unusedSimpArgs false
 set_option linter.unusedVariables false
 
@@ -182,5 +183,68 @@ theorem world_switch_succeeds (H : HashFn) (w : W.World) (n : Bytes) (tz : Int) 
       Bool.not_true, Bool.and_false, Bool.false_eq_true, if_false]
     unfold W.switchTo
     simp [hex, hhd, hlk, hcc, W.setHead, W.appendLogHead]
+
+end C10
+
+namespace W
+
+/-- the loaded branch list is strictly sorted by name when branch names are unique -/
+theorem loaded_refs_sorted (H : HashFn) (w : World) (l : Loaded) (hl : load H w = some l) (hn : HN w) : C10.Sorted l.refs := by
+  have h := load_refs H w l hl
+  unfold Refs.load at h
+  cases hm : w.heads.mapM (fun (p : Bytes × Bytes) => (readHash p.2).map fun h => (p.1, h)) with
+  | none => simp [hm] at h
+  | some m =>
+    simp only [hm, Option.map_some, Option.some.injEq] at h
+    rw [← h]
+    apply C10.sortHeads_sorted
+    have hk := mapM_keys _ (by
+      intro p q hq
+      cases hr : readHash p.2 with
+      | none => simp [hr] at hq
+      | some x => simp [hr] at hq; rw [← hq]) w.heads m hm
+    unfold Refs.names
+    rw [hk]; exact hn
+
+end W
+
+namespace C10
+
+/-- **`branch <n>` succeeds** for a valid name no branch file carries, when HEAD's branch has a commit (whole-repository model,
+    unique branch names): the new file holds HEAD's commit (`world_create_spec`) -/
+theorem world_branch_create_succeeds (H : HashFn) (w : W.World) (n : Bytes) (tz : Int) (ts : List Int) (l : W.Loaded) (id : Bytes) (c : Commit)
+    (hn : W.HN w) (hinit : w.inited = true) (hl : W.load H w = some l) (hh : l.headCommit = some (id, c))
+    (hv : Refs.validName n = true) (hnew : W.aget w.heads n = none) :
+    (W.run H w ⟨.branch [n] false [] [], tz, ts⟩).2 = .ok none := by
+  have hs := W.loaded_refs_sorted H w l hl hn
+  have hnot : n ∉ Refs.names l.refs := by
+    intro hm
+    have := W.load_names w.heads l.refs (W.load_refs H w l hl) n hm
+    rw [hnew] at this; cases this
+  obtain ⟨h', hadd, _⟩ := add_ok l.refs hs n id hv hnot
+  unfold W.run
+  simp only [hinit, Bool.not_true, Bool.false_eq_true, if_false, W.pathArgs, List.all_nil, hl]
+  unfold W.branchCmd
+  simp only [List.length_cons, List.length_nil, List.isEmpty_nil, List.isEmpty_cons, Bool.not_false, Bool.and_true, Bool.true_and,
+    beq_self_eq_true, Bool.true_or, Bool.not_true, Bool.false_eq_true, if_false]
+  unfold W.branchCreate
+  simp [hh, hadd]
+
+/-- **`branch -d <n>` succeeds** for an existing branch other than the current one whose log is there (whole-repository model,
+    unique branch names): exactly that file disappears (`world_delete_spec`) -/
+theorem world_branch_delete_succeeds (H : HashFn) (w : W.World) (del : Bytes) (tz : Int) (ts : List Int) (l : W.Loaded)
+    (hn : W.HN w) (hinit : w.inited = true) (hl : W.load H w = some l) (hne : del ≠ l.ref) (hd : del ≠ [])
+    (hex : del ∈ Refs.names l.refs) (hlog : (W.aget w.logHeads del).isNone = false) :
+    (W.run H w ⟨.branch [] false [] del, tz, ts⟩).2 = .ok none := by
+  have hs := W.loaded_refs_sorted H w l hl hn
+  obtain ⟨i, hi, _, hdel⟩ := delete_ok l.refs hs l.ref del hne hex
+  have hde : del.isEmpty = false := by cases del <;> simp_all
+  unfold W.run
+  simp only [hinit, Bool.not_true, Bool.false_eq_true, if_false, W.pathArgs, List.all_nil, hl]
+  unfold W.branchCmd
+  simp only [List.length_nil, List.isEmpty_nil, hde, Bool.not_false, Bool.and_true, Bool.true_and, Bool.and_false, Bool.false_and,
+    Bool.or_false, Bool.false_or, Bool.not_true, Bool.false_eq_true, if_false, Bool.or_true]
+  unfold W.branchDelete
+  simp [hdel, hlog]
 
 end C10
